@@ -1,4 +1,4 @@
-SPECIFICATION Spec
+SPECIFICATION TreeSpec
 VIEW StateView
 CONSTANTS
  BytesOf <- MCBytesOf
@@ -11,8 +11,8 @@ CONSTANTS
  BranchNames <- MCBranchNames
  Msgs <- MCMsgs
  Subject <- MCSubject
- MaxCommits = 2
- FreshContent = "c1"
+ MaxCommits = 0
+ FreshContent = ""
  Want = {"ALL"}
  ArgLists <- MCArgLists
  InitEvents <- MCInitEvents
@@ -22,7 +22,7 @@ CONSTANTS
  CfgValues <- MCCfgValues
  IgnoreVariants <- MCIgnoreVariants
  Cmds <- MCCmds
-CONSTRAINT MCLevel
-PROPERTY StepOK
-INVARIANTS InvConnected InvCanonical InvNoMeta InvRoundTrip InvTreeOf InvWriteTreeImpl InvLogImpl
+ Universe <- MCUniverse
+ MaxSize = 5
+INVARIANTS InvCanonical InvTreeOf InvWriteTreeImpl InvTreesWellFormed
 CHECK_DEADLOCK FALSE
